@@ -9,7 +9,7 @@ struct LevelPair {
     std::vector<int> threads_per_level; // must outlive the Interpolation object (it keeps a reference)
     std::unique_ptr<Interpolation> interp;
     // coarse grid = every second node of the fine grid; both splits chosen by the caller
-    void build(const GridSpec& fine_spec, std::optional<double> coarse_split, bool coarse_auto, int threads, bool dirbc)
+    void build(const GridSpec& fine_spec, std::optional<double> coarse_split, bool coarse_auto, int threads, bool dirbc, int coarse_threads = -1)
     {
         ps.geom = G_CIRCULAR;
         ps.prof = F_POISSON;
@@ -27,7 +27,7 @@ struct LevelPair {
         fine     = std::make_unique<Level>(0, std::move(fg), std::move(flc), ExtrapolationType::NONE, true);
         auto clc = std::make_unique<LevelCache>(*fine, *cg);
         coarse   = std::make_unique<Level>(1, std::move(cg), std::move(clc), ExtrapolationType::NONE, true);
-        threads_per_level = {threads, threads};
+        threads_per_level = {threads, coarse_threads > 0 ? coarse_threads : threads}; // the solver reduces the team on coarser levels (threadReductionFactor)
         interp   = std::make_unique<Interpolation>(threads_per_level, dirbc);
     }
 };
